@@ -45,7 +45,25 @@ CFGS = {
     "t.5": {"threshold": 0.5, "col": "reaction"},
     "t1": {"threshold": 1, "col": "reaction"},
     "rxn": {"threshold": 0, "col": "rxn"},
+    # two thresholds on opposite sides of the confidence of reaction A that agree in their
+    # first three decimals (filled in lazily from the observed confidence)
+    "tc": {"threshold": None, "col": "reaction", "offset": 0.0},
+    "tc+": {"threshold": None, "col": "reaction", "offset": 0.0004},
 }
+_CONF_A = []
+
+
+def cfg_of(name):
+    cfg = dict(CFGS[name])
+    if cfg["threshold"] is None:
+        if not _CONF_A:
+            b = _balancer("reaction")
+            b.confidence_threshold = 0
+            b.cache, b.cache_dir = False, None
+            rows = b.rebalance([A], output_dict=True)
+            _CONF_A.append(float(rows[0]["confidence"]))
+        cfg["threshold"] = _CONF_A[0] + cfg["offset"]
+    return cfg
 BATCH_SIZES = [None, 1, 2]
 
 
@@ -58,6 +76,10 @@ def run_ops(tier):
     for c in ("t0", "rxn", "t.5"):
         for bs in (None, 1):
             ops.append(("run", c, "2col", bs))
+    for c in ("tc", "tc+"):
+        for i in ("A", "AB"):
+            for bs in (None, 1):
+                ops.append(("run", c, i, bs))
     return ops
 
 
@@ -292,7 +314,7 @@ def execute(state, op, want_log=False):
     """Run one `run` operation on a materialised copy of `state`.
     -> (new_state, observation, effect log)"""
     _, cfg_name, inp, bs = op
-    cfg = CFGS[cfg_name]
+    cfg = cfg_of(cfg_name)
     d = tempfile.mkdtemp(prefix="c12_", dir=_shm())
     try:
         cdir = os.path.join(d, "cache")
@@ -339,7 +361,7 @@ def reference(op):
     k = tuple(op)
     if k not in _REF:
         _, cfg_name, inp, bs = op
-        cfg = CFGS[cfg_name]
+        cfg = cfg_of(cfg_name)
         b = _balancer(cfg["col"])
         b.confidence_threshold = cfg["threshold"]
         b.cache, b.cache_dir = False, None
@@ -473,8 +495,8 @@ def run(tier, seed):
         "evaluations": n_trans,
         "distinct_nontrivial": len(seen),
         "rule": "BFS over cache-directory contents: all crash-free histories of <= 3 runs over {} run operations "
-                "(3 thresholds x 4 inputs x batch sizes None/1/2, plus two-column rows under two column "
-                "configurations); crashes: every run from the empty cache{} killed after every prefix of its recorded "
+                "(3 thresholds x 4 inputs x batch sizes None/1/2, two thresholds 0.0004 apart on either side of an observed "
+                "confidence, two-column rows under two column configurations); crashes: every run from the empty cache{} killed after every prefix of its recorded "
                 "file effects and, inside each written file, at every {} byte plus the first/last 3 bytes{}; each crash "
                 "state is followed by every run operation{}.  Every run transition executes the real rebalance and "
                 "is compared with the uncached run.".format(
